@@ -160,7 +160,11 @@ func (d *Decoder) readStruct() (interface{}, error) {
 		hlog.Debugf("reading tag err:%v", err)
 		return nil, err
 	}
+	return d.readStructTag(tag)
+}
 
+// readStructTag read a struct (or date) value whose tag has been read already
+func (d *Decoder) readStructTag(tag byte) (interface{}, error) {
 	switch {
 	case tag == _endFlag:
 		return nil, io.EOF
